@@ -69,6 +69,11 @@ func init() {
 			Rule: "history with >=2 inserts followed by lookups of inserted and fresh elements; distinct by SHA-1 of the case",
 			Quick: 300, Thorough: 5000},
 	}
+	machineByID[4] = func() Machine { return &bloomRedis{} }
+	registry["C01"] = append(registry["C01"], Suite{Name: "bloom-redis", NewMachine: func() Machine { return &bloomRedis{} }, Gen: genC01,
+		Monitors: []Monitor{monitorBloom("redis")}, OpName: bloomOpName,
+		Nontrivial: func(r *RunResult) bool { return countOps(r, blInsert) >= 2 },
+		Rule: "as bloom-mem, against the Redis-backed filter on miniredis", Quick: 150, Thorough: 2500})
 	registry["C05"] = []Suite{
 		{Name: "hll-mem", NewMachine: func() Machine { return &withCodec{genericMachine: &hllMem{}} }, Gen: genC05,
 			Monitors: []Monitor{monitorHLL("mem", "C05")}, OpName: hllOpName,
